@@ -71,15 +71,18 @@ func corpus() []*animenc.History {
 func check(c *Ctx, h *animenc.History, stream string) {
 	rng := c.Rng.Fork()
 	o, vkey := animenc.RunAndEval(c, h, rng, animenc.EvalLossless)
-	if h.Faulty() || h.HasRaw() {
-		// direct evaluation only: the model has no failing codec and no pre-encoded frames
+	if h.HasRaw() || len(h.Frames) > 2000 {
+		// direct evaluation only: the model has no pre-encoded frames (and the 10000-frame
+		// session is too long a case line for the quick tier)
 		c.D.Evaluations++
 		c.Count("stream:" + stream)
-		c.Count(fmt.Sprintf("rejected-addframes:%d", len(o.Rejected)))
 		if vkey != "" {
 			c.Count("violation:" + vkey)
 		}
 		return
+	}
+	if h.Faulty() {
+		c.Count(fmt.Sprintf("rejected-addframes:%d", len(o.Rejected)))
 	}
 	mode := "px"
 	if o.Err == "" && o.CodecExact(h) >= 0 {
